@@ -5,10 +5,12 @@
 import ChialispModel.Drv.Base
 import ChialispModel.Drv.Conv
 import ChialispModel.Drv.Src
+import ChialispModel.Drv.Reader
 
 def main (args : List String) : IO UInt32 := do
   match args with
   | ["base"] => Drv.Base.run; return 0
   | ["conv"] => Drv.Conv.run; return 0
   | ["src"] => Drv.Src.run; return 0
+  | ["reader"] => Drv.Reader.run; return 0
   | _ => IO.eprintln s!"modeld: unknown sub-command {args}"; return 2
